@@ -26,11 +26,16 @@ var insecureOriginAtoms = []string{
 
 var pslOriginAtoms = []string{"https://*.com", "https://*.co.uk:*", "https://*.github.io:8080", "https://*.com.", "https://*.org:8443"}
 
-var methodAtoms = []string{"*", "GET", "POST", "HEAD", "PUT", "put", "Put", "DELETE", "delete", "PATCH", "patch", "PURGE", "OPTIONS", "options", "Foo", "QUERY", "get", "pOsT"}
+var longMethod = "M" + strings.Repeat("ethod", 20) // 101 bytes, mixed case
 
-var reqHdrAtoms = []string{"*", "Authorization", "authorization", "AUTHORIZATION", "Content-Type", "content-type", "X-Foo", "x-foo", "X-Bar", "x-a", "x-ab", "Accept", "X-Requested-With", "foo", "bar", "x-abc"}
+var longHeader = "X-" + strings.Repeat("Long-Name-", 9) + "End" // 95 bytes, mixed case
 
-var resHdrAtoms = []string{"X-Resp", "x-resp", "Content-Type", "Cache-Control", "X-Other", "ETag", "Content-Length", "x-a", "X-B", "Location"}
+var methodAtoms = []string{longMethod, "*", "GET", "POST", "HEAD", "PUT", "put", "Put", "DELETE", "delete", "PATCH", "patch", "PURGE", "OPTIONS", "options", "Foo", "QUERY", "get", "pOsT"}
+
+var reqHdrAtoms = []string{longHeader, strings.ToLower(longHeader[:64]), longHeader[:65], "*", "Authorization", "authorization", "AUTHORIZATION", "Content-Type", "content-type", "X-Foo", "x-foo", "X-Bar", "x-a", "x-ab", "Accept", "X-Requested-With", "foo", "bar", "x-abc",
+	"X-H01", "x-h02", "X-H03", "x-h04", "X-H05", "x-h06", "X-H07", "x-h08", "X-H09", "x-h10", "X-H11", "x-h12", "x_under", "x.dot", "x+plus", "a^b", "x#1", "x!", "if-none-match", "range"}
+
+var resHdrAtoms = []string{longHeader, longHeader[:65], "X-Resp", "x-resp", "Content-Type", "Cache-Control", "X-Other", "ETag", "Content-Length", "x-a", "X-B", "Location"}
 
 type cfgOpts struct {
 	noAllowAll bool
@@ -65,9 +70,13 @@ func genValidCfgOpt(t *rapid.T, o cfgOpts) Cfg {
 	secureOnly := (c.Credentialed || pna) && !c.TolInsecure
 
 	if o.tinyOK && !secureOnly && c.TolPSL && chance(t, "tinyorigins", 35) {
-		c.Origins = patStrings(genPatList(t))
+		if chance(t, "longorigins", 20) {
+			c.Origins = patStrings(genLongPatList(t)) // hosts up to 253 bytes + dot, 64-byte schemes, 5-digit ports
+		} else {
+			c.Origins = patStrings(genPatList(t))
+		}
 	} else {
-		n := intIn(t, "norigins", 1, 4)
+		n := listLen(t, "norigins", 1, 4)
 		for i := 0; i < n; i++ {
 			k := uniform(t, "originkind", 100)
 			switch {
@@ -89,15 +98,15 @@ func genValidCfgOpt(t *rapid.T, o cfgOpts) Cfg {
 		}
 	}
 
-	nm := uniform(t, "nmethods", 5)
+	nm := listLen(t, "nmethods", 0, 4)
 	for i := 0; i < nm; i++ {
 		c.Methods = append(c.Methods, Str(pick(t, "method", methodAtoms)))
 	}
-	nh := uniform(t, "nreqhdrs", 6)
+	nh := listLen(t, "nreqhdrs", 0, 5)
 	for i := 0; i < nh; i++ {
 		c.RequestHeaders = append(c.RequestHeaders, Str(pick(t, "reqhdr", reqHdrAtoms)))
 	}
-	nr := uniform(t, "nreshdrs", 4)
+	nr := listLen(t, "nreshdrs", 0, 3)
 	for i := 0; i < nr; i++ {
 		c.ResponseHeaders = append(c.ResponseHeaders, Str(pick(t, "reshdr", resHdrAtoms)))
 	}
@@ -268,6 +277,11 @@ func Suite(c Cfg) []Req {
 		acrhs = append(acrhs, names) // one name per field line
 		acrhs = append(acrhs, []string{names[1] + "," + names[0]})
 		acrhs = append(acrhs, []string{names[0] + "," + names[0]})
+		// several field lines whose lines are fine one by one but not together
+		acrhs = append(acrhs, []string{names[1], names[0]})
+		acrhs = append(acrhs, []string{names[0], names[0]})
+		acrhs = append(acrhs, []string{names[len(names)-1], strings.Join(names, ",")})
+		acrhs = append(acrhs, []string{names[0], ",,,,,,,,,", ",,,,,,,,," + names[1]})
 	}
 	if len(names) >= 1 {
 		acrhs = append(acrhs, []string{names[0] + ",x-unlisted"})
